@@ -9,6 +9,10 @@ use crate::{with_atomic_type, with_type};
 use std::io::ErrorKind;
 use std::sync::atomic::Ordering;
 use vm_memory::volatile_memory::Error as VErr;
+use std::cell::RefCell;
+use std::collections::BTreeSet;
+use std::sync::Arc;
+use vm_memory::bitmap::{ArcSlice, AtomicBitmap, Bitmap, BitmapSlice, RefSlice};
 use vm_memory::{ByteValued, Bytes, MmapRegion, VolatileMemory, VolatileSlice};
 
 #[derive(Debug, Clone, PartialEq)]
@@ -48,24 +52,52 @@ pub fn obs_unit(r: Result<(), VErr>) -> Obs {
     }
 }
 
-pub struct Cont {
+/// dirty-tracking side of a container: the bitmap its slice marks into
+pub struct Track {
+    pub bitmap: Arc<AtomicBitmap>,
+    /// offset of the container's first byte in the bitmap's address space
+    pub base_off: usize,
+    pub ps: usize,
+    pub flavour: &'static str,
+}
+
+impl Track {
+    pub fn pages(&self) -> BTreeSet<usize> {
+        in_mode(Mode::Oracle, || (0..self.bitmap.len() + 2).filter(|&i| self.bitmap.is_bit_set(i)).collect())
+    }
+}
+
+pub struct Cont<BS: BitmapSlice = ()> {
     pub ptr: *mut u8,
     pub size: usize,
     pub rid: u32,
     pub model: Vec<u8>,
     pub arena: Option<Arena>,
     pub region: Option<MmapRegion>,
+    pub base: VolatileSlice<'static, BS>,
+    pub track: Option<Track>,
 }
 
-impl Cont {
+impl<BS: BitmapSlice> Cont<BS> {
     /// The lifetime is detached on purpose: the container outlives every view of a run.
-    pub fn slice(&self) -> VolatileSlice<'static, ()> {
-        match &self.region {
-            // SAFETY: the region is dropped only at the end of the run, after all views.
-            Some(r) => unsafe { std::mem::transmute::<VolatileSlice<'_, ()>, VolatileSlice<'static, ()>>(r.as_volatile_slice()) },
-            // SAFETY: the arena outlives the container and the range is inside its data pages.
-            None => unsafe { VolatileSlice::new(self.ptr, self.size) },
-        }
+    pub fn slice(&self) -> VolatileSlice<'static, BS> {
+        self.base.clone()
+    }
+}
+
+thread_local! {
+    /// (container, offset, length) ranges the operation in progress wrote, per the model
+    static WROTE: RefCell<Vec<(usize, usize, usize)>> = const { RefCell::new(Vec::new()) };
+}
+
+thread_local! {
+    /// the operation in progress failed part-way (soundness only, no precision demand)
+    static PARTIAL: std::cell::Cell<bool> = const { std::cell::Cell::new(false) };
+}
+
+fn note_w(ci: usize, lo: usize, hi: usize) {
+    if hi > lo {
+        WROTE.with(|w| w.borrow_mut().push((ci, lo, hi - lo)));
     }
 }
 
@@ -90,7 +122,9 @@ pub fn new_cont(rid: u32) -> Cont {
         cx().add_range(ptr as usize, size.div_ceil(PAGE) * PAGE, rid, true);
         let model: Vec<u8> = (0..size).map(|i| pat(1000 + rid, i)).collect();
         raw_write(ptr, &model);
-        Cont { ptr, size, rid, model, arena: None, region: Some(region) }
+        // SAFETY: the region is dropped only at the end of the run, after all views.
+        let base = unsafe { std::mem::transmute::<VolatileSlice<'_, ()>, VolatileSlice<'static, ()>>(region.as_volatile_slice()) };
+        Cont { ptr, size, rid, model, arena: None, region: Some(region), base, track: None }
     } else {
         let arena = Arena::get(2);
         let residue = c.a(8) as usize;
@@ -99,12 +133,14 @@ pub fn new_cont(rid: u32) -> Cont {
         cx().add_range(arena.data() as usize, arena.data_len(), rid, true);
         let model: Vec<u8> = (0..size).map(|i| pat(1000 + rid, i)).collect();
         raw_write(ptr, &model);
-        Cont { ptr, size, rid, model, arena: Some(arena), region: None }
+        // SAFETY: the arena outlives the container and the range is inside its data pages.
+        let base = unsafe { VolatileSlice::new(ptr, size) };
+        Cont { ptr, size, rid, model, arena: Some(arena), region: None, base, track: None }
     }
 }
 
 /// offset of the container's first byte inside its registered range
-pub fn cont_base_in_range(c: &Cont) -> usize {
+pub fn cont_base_in_range<BS: BitmapSlice>(c: &Cont<BS>) -> usize {
     match &c.arena {
         Some(a) => c.ptr as usize - a.data() as usize,
         None => 0,
@@ -186,7 +222,7 @@ pub fn gen_view(size: usize) -> ViewSpec {
     v
 }
 
-pub fn derive(base: VolatileSlice<'static, ()>, spec: &ViewSpec) -> Result<VolatileSlice<'static, ()>, VErr> {
+pub fn derive<BS: BitmapSlice>(base: VolatileSlice<'static, BS>, spec: &ViewSpec) -> Result<VolatileSlice<'static, BS>, VErr> {
     let mut s = base;
     for &(k, o, n) in &spec.steps {
         s = match k {
@@ -198,21 +234,21 @@ pub fn derive(base: VolatileSlice<'static, ()>, spec: &ViewSpec) -> Result<Volat
             6 => {
                 let a = s.get_array_ref::<u32>(o, n)?;
                 // SAFETY: as below.
-                unsafe { std::mem::transmute::<VolatileSlice<'_, ()>, VolatileSlice<'static, ()>>(a.to_slice()) }
+                unsafe { std::mem::transmute::<VolatileSlice<'_, BS>, VolatileSlice<'static, BS>>(a.to_slice()) }
             }
             7 => {
                 let r = s.get_ref::<u64>(o)?;
                 // SAFETY: as below.
-                unsafe { std::mem::transmute::<VolatileSlice<'_, ()>, VolatileSlice<'static, ()>>(r.to_slice()) }
+                unsafe { std::mem::transmute::<VolatileSlice<'_, BS>, VolatileSlice<'static, BS>>(r.to_slice()) }
             }
             8 => {
-                let a = vm_memory::VolatileArrayRef::<u8, ()>::from(s.subslice(o, n)?);
+                let a = vm_memory::VolatileArrayRef::<u8, BS>::from(s.subslice(o, n)?);
                 a.to_slice()
             }
             _ => {
                 let a = s.get_array_ref::<u8>(o, n)?;
                 // SAFETY: the underlying memory outlives the run; only the borrow of `s` is detached.
-                unsafe { std::mem::transmute::<VolatileSlice<'_, ()>, VolatileSlice<'static, ()>>(a.to_slice()) }
+                unsafe { std::mem::transmute::<VolatileSlice<'_, BS>, VolatileSlice<'static, BS>>(a.to_slice()) }
             }
         };
     }
@@ -257,6 +293,9 @@ struct Judge {
 
 impl Judge {
     fn expect(&self, got: &Obs, exp: &Obs) {
+        if matches!(exp, Obs::Partial(..)) || matches!(got, Obs::Partial(..)) {
+            PARTIAL.with(|p| p.set(true));
+        }
         if got != exp {
             cx().violate("C04", "C04/result", format!("{} result", self.kind), format!("step {} {}: returned {:?}, the byte-array model says {:?}", self.step, self.desc, got, exp));
         }
@@ -291,10 +330,80 @@ impl Scenario for Mem {
     }
 
     fn run(&self) -> RunInfo {
+        run_mem::<()>(new_cont, false)
+    }
+}
+
+/// S-dirty/slice: the same accessor histories on containers whose slices carry a bitmap slice
+/// (RefSlice, nested RefSlice, ArcSlice, Option<RefSlice>) at a non-zero base offset.
+pub struct DirtySlice;
+pub static DIRTY_SLICE: DirtySlice = DirtySlice;
+
+impl Scenario for DirtySlice {
+    fn name(&self) -> &'static str {
+        "S-dirty/slice"
+    }
+    fn run(&self) -> RunInfo {
+        cx().cfg.anon_atomics = true;
+        match cx().a(4) {
+            0 => run_mem::<RefSlice<'static, AtomicBitmap>>(|rid| new_tracked(rid, "RefSlice", |bm, off| RefSlice::new(bm, off)), true),
+            1 => run_mem::<RefSlice<'static, AtomicBitmap>>(|rid| new_tracked(rid, "RefSlice of RefSlice", |bm, off| RefSlice::new(bm, off / 2).slice_at(off - off / 2)), true),
+            2 => run_mem::<ArcSlice<AtomicBitmap>>(|rid| new_tracked_arc(rid), true),
+            _ => run_mem::<Option<RefSlice<'static, AtomicBitmap>>>(|rid| new_tracked(rid, "Option<RefSlice>", |bm, off| Some(RefSlice::new(bm, off))), true),
+        }
+    }
+}
+
+fn tracked_geometry(size: usize) -> (usize, usize, usize) {
+    let c = cx();
+    let ps = c.pick(&[1usize, 2, 3, 16, 64, 4096, 7]);
+    let ps = if c.a(8) == 0 { size + 1 + c.a(50) as usize } else { ps };
+    let base_off = match c.a(4) {
+        0 => 0,
+        1 => ps * (1 + c.a(3) as usize),
+        _ => 1 + c.a(200) as usize,
+    };
+    let cover = base_off + size + c.a(2 * ps.min(300) as u32) as usize;
+    (ps, base_off, cover)
+}
+
+fn new_tracked<BS: BitmapSlice>(rid: u32, flavour: &'static str, mk: impl Fn(&'static AtomicBitmap, usize) -> BS) -> Cont<BS> {
+    let plain = new_arena_cont(rid);
+    let (ps, base_off, cover) = tracked_geometry(plain.size);
+    let bitmap = Arc::new(AtomicBitmap::new(cover, std::num::NonZeroUsize::new(ps).unwrap()));
+    // SAFETY: the Arc is kept in the container's Track for the whole run.
+    let bref: &'static AtomicBitmap = unsafe { &*Arc::as_ptr(&bitmap) };
+    // SAFETY: arena memory outlives the container.
+    let base = unsafe { VolatileSlice::with_bitmap(plain.ptr, plain.size, mk(bref, base_off), None) };
+    Cont { ptr: plain.ptr, size: plain.size, rid, model: plain.model, arena: plain.arena, region: None, base, track: Some(Track { bitmap, base_off, ps, flavour }) }
+}
+
+fn new_tracked_arc(rid: u32) -> Cont<ArcSlice<AtomicBitmap>> {
+    let plain = new_arena_cont(rid);
+    let (ps, base_off, cover) = tracked_geometry(plain.size);
+    let bitmap = Arc::new(AtomicBitmap::new(cover, std::num::NonZeroUsize::new(ps).unwrap()));
+    // SAFETY: arena memory outlives the container.
+    let base = unsafe { VolatileSlice::with_bitmap(plain.ptr, plain.size, ArcSlice::new(bitmap.clone(), base_off), None) };
+    Cont { ptr: plain.ptr, size: plain.size, rid, model: plain.model, arena: plain.arena, region: None, base, track: Some(Track { bitmap, base_off, ps, flavour: "ArcSlice" }) }
+}
+
+fn new_arena_cont(rid: u32) -> Cont<()> {
+    loop {
+        let c = new_cont(rid);
+        if c.arena.is_some() {
+            return c;
+        }
+        cx().remove_range(rid);
+        drop(c);
+    }
+}
+
+fn run_mem<BS: BitmapSlice>(mk: impl Fn(u32) -> Cont<BS>, tracked: bool) -> RunInfo {
+    {
         cx().mode = Mode::Setup;
-        let mut conts = vec![new_cont(0)];
+        let mut conts = vec![mk(0)];
         if cx().a(3) == 0 {
-            conts.push(new_cont(1));
+            conts.push(mk(1));
         }
         let nact = 1 + cx().a(3);
         let nops = 1 + cx().a(30) as usize;
@@ -307,13 +416,31 @@ impl Scenario for Mem {
             }
             let actor = cx().a(nact) as u8;
             cx().actor = actor;
+            // bitmap actor between operations
+            if tracked && cx().a(5) == 0 {
+                let t = conts[cx().a(conts.len() as u32) as usize].track.as_ref().unwrap();
+                let what = cx().a(3);
+                let (a, l) = (cx().a(t.bitmap.byte_size() as u32 + 1) as usize, 1 + cx().a(300) as usize);
+                in_mode(Mode::Setup, || match what {
+                    0 => t.bitmap.reset(),
+                    1 => t.bitmap.reset_addr_range(a, l),
+                    _ => drop(t.bitmap.get_and_reset()),
+                });
+            }
             let ci = cx().a(conts.len() as u32) as usize;
             let spec = gen_view(conts[ci].size);
-            let kind = cx().a(24);
+            let mut kind = cx().a(24);
+            if tracked && kind == 20 {
+                kind = 0; // writes through handed-out references are exempt from tracking
+            }
             let stamp = step as u32 + 1;
+            let before_pages: Vec<BTreeSet<usize>> = if tracked { conts.iter().map(|c| c.track.as_ref().unwrap().pages()).collect() } else { Vec::new() };
+            let before_bytes: Vec<Vec<u8>> = if tracked { conts.iter().map(|c| raw_read(c.ptr, c.size)).collect() } else { Vec::new() };
+            WROTE.with(|w| w.borrow_mut().clear());
+            PARTIAL.with(|p| p.set(false));
             cx().mode = Mode::Actor;
             cx().op_begin(step as u64);
-            let (desc, kname) = self.one_op(&mut conts, ci, &spec, kind, stamp, step, &mut ok_ops, &mut rejected);
+            let (desc, kname) = MEM.one_op(&mut conts, ci, &spec, kind, stamp, step, &mut ok_ops, &mut rejected);
             cx().op_end(step as u64, 0);
             cx().mode = Mode::Setup;
             log.push(format!("a{} c{} view{:?}(+{},{}) {}", actor, ci, spec.steps, spec.off, spec.len, desc));
@@ -341,11 +468,48 @@ impl Scenario for Mem {
                     }
                 }
             }
+            if !tracked {
+                continue;
+            }
+            // ---- dirty tracking oracles (C05 sound, C16 precise) -------------------------------------
+            let wrote = WROTE.with(|w| w.borrow().clone());
+            let line = log.last().unwrap().clone();
+            for (k, c) in conts.iter().enumerate() {
+                let t = c.track.as_ref().unwrap();
+                let after = t.pages();
+                let now = raw_read(c.ptr, c.size);
+                for i in 0..c.size {
+                    if now[i] != before_bytes[k][i] && !after.contains(&((t.base_off + i) / t.ps)) {
+                        cx().violate("C05", "C05/unmarked-write", format!("{} through {} left a changed byte clean", kname, t.flavour), format!("step {} {}: byte {} of container {} changed but page {} (page size {}, slice base offset {}) is clean", step, line, i, k, (t.base_off + i) / t.ps, t.ps, t.base_off));
+                        break;
+                    }
+                }
+                let mut want = before_pages[k].clone();
+                for &(ci2, off, len) in &wrote {
+                    if ci2 == k {
+                        for p in (t.base_off + off) / t.ps..=(t.base_off + off + len - 1) / t.ps {
+                            if p < t.bitmap.len() {
+                                want.insert(p);
+                            }
+                        }
+                    }
+                }
+                let partial = PARTIAL.with(|p| p.get());
+                if after != want && !partial {
+                    let extra: Vec<_> = after.difference(&want).collect();
+                    if !extra.is_empty() {
+                        cx().violate("C16", "C16/extra-mark", format!("{} through {} marked too much", kname, t.flavour), format!("step {} {}: container {} pages {:?} became dirty although the operation wrote only {:?} (page size {}, slice base offset {})", step, line, k, extra, wrote, t.ps, t.base_off));
+                    } else {
+                        let missing: Vec<_> = want.difference(&after).collect();
+                        cx().violate("C16", "C16/missing-mark", format!("{} through {} marked too little", kname, t.flavour), format!("step {} {}: container {} pages {:?} overlap the written bytes {:?} but are clean (page size {}, slice base offset {})", step, line, k, missing, wrote, t.ps, t.base_off));
+                    }
+                }
+            }
         }
         cx().actor = 0;
         cx().mode = Mode::Setup;
         let desc = if cx().trace {
-            Some(J::obj().set("containers", J::strs(conts.iter().map(|c| format!("size={} base%8={} kind={}", c.size, c.ptr as usize % 8, if c.region.is_some() { "MmapRegion" } else { "VolatileSlice over simulated RAM" })))).set("history", J::strs(log.clone())))
+            Some(J::obj().set("containers", J::strs(conts.iter().map(|c| format!("size={} base%8={} kind={}{}", c.size, c.ptr as usize % 8, if c.region.is_some() { "MmapRegion" } else { "VolatileSlice over simulated RAM" }, c.track.as_ref().map(|t| format!(" bitmap={} page_size={} base_offset={}", t.flavour, t.ps, t.base_off)).unwrap_or_default())))).set("history", J::strs(log.clone())))
         } else {
             None
         };
@@ -363,7 +527,7 @@ impl Scenario for Mem {
 
 impl Mem {
     #[allow(clippy::too_many_arguments)]
-    fn one_op(&self, conts: &mut [Cont], ci: usize, spec: &ViewSpec, kind: u32, stamp: u32, step: usize, ok_ops: &mut u32, rejected: &mut u32) -> (String, &'static str) {
+    fn one_op<BS: BitmapSlice>(&self, conts: &mut [Cont<BS>], ci: usize, spec: &ViewSpec, kind: u32, stamp: u32, step: usize, ok_ops: &mut u32, rejected: &mut u32) -> (String, &'static str) {
         let rid = conts[ci].rid;
         let cbase = cont_base_in_range(&conts[ci]);
         let (voff, vlen) = (spec.off, spec.len);
@@ -402,6 +566,7 @@ impl Mem {
                 let got = with_allowed(rid, &[(abs(addr), abs(addr) + k)], || flat(catch(|| view.write(buf.as_ref(), addr)), obs_count));
                 if k > 0 {
                     conts[ci].model[voff + addr..voff + addr + k].copy_from_slice(&buf.as_ref()[..k]);
+                    note_w(ci, voff + addr, voff + addr + k);
                 }
                 j.expect(&got, &exp);
                 tally!(got);
@@ -434,6 +599,7 @@ impl Mem {
                 let got = with_allowed(rid, &[(abs(addr), abs(addr) + k)], || flat(catch(|| view.write_slice(buf.as_ref(), addr)), obs_unit));
                 if k > 0 {
                     conts[ci].model[voff + addr..voff + addr + k].copy_from_slice(&buf.as_ref()[..k]);
+                    note_w(ci, voff + addr, voff + addr + k);
                 }
                 j.expect(&got, &exp);
                 tally!(got);
@@ -466,6 +632,7 @@ impl Mem {
                     let got = with_allowed(rid, &[(abs(addr), abs(addr) + k)], || with_type!(ti, T => flat(catch(|| view.write_obj::<T>(mk::<T>(&bytes), addr)), obs_unit)));
                     if k > 0 {
                         conts[ci].model[voff + addr..voff + addr + k].copy_from_slice(&bytes[..k]);
+                        note_w(ci, voff + addr, voff + addr + k);
                     }
                     j.expect(&got, &exp_w);
                     tally!(got);
@@ -497,6 +664,7 @@ impl Mem {
                 let exp = if !fits { Obs::Oob } else if store { Obs::Unit } else { Obs::Bytes(conts[ci].model[voff + addr..voff + addr + sz].to_vec()) };
                 if fits && store {
                     conts[ci].model[voff + addr..voff + addr + sz].copy_from_slice(&bytes);
+                    note_w(ci, voff + addr, voff + addr + sz);
                 }
                 j.expect(&got, &exp);
                 tally!(got);
@@ -548,6 +716,7 @@ impl Mem {
                                 with_type!(ti, T => flat(catch(|| view.get_array_ref::<T>(addr, n).map(|a| if via_ref_at { a.ref_at(idx).store(mk::<T>(&bytes)) } else { a.store(idx, mk::<T>(&bytes)) })), obs_unit))
                             });
                             conts[ci].model[lo + idx * sz..lo + idx * sz + sz].copy_from_slice(&bytes);
+                            note_w(ci, lo + idx * sz, lo + idx * sz + sz);
                             j.expect(&got, &Obs::Unit);
                             tally!(got);
                         }
@@ -568,6 +737,7 @@ impl Mem {
                                 })
                             });
                             conts[ci].model[lo..lo + k * sz].copy_from_slice(&src[..k * sz]);
+                            note_w(ci, lo, lo + k * sz);
                             j.expect(&got, &Obs::Unit);
                             tally!(got);
                         }
@@ -599,6 +769,7 @@ impl Mem {
                             });
                             let src = model_before[lo..lo + k].to_vec();
                             conts[ci].model[ds.off..ds.off + k].copy_from_slice(&src);
+                            note_w(ci, ds.off, ds.off + k);
                             j.expect(&got, &Obs::Unit);
                             tally!(got);
                         }
@@ -647,6 +818,7 @@ impl Mem {
                         })
                     });
                     conts[ci].model[voff..voff + k * sz].copy_from_slice(&src[..k * sz]);
+                    note_w(ci, voff, voff + k * sz);
                     j.expect(&got, &Obs::Unit);
                     tally!(got);
                 }
@@ -667,6 +839,7 @@ impl Mem {
                 cx().allowed.clear();
                 let src = conts[ci].model[voff..voff + k].to_vec();
                 conts[di].model[ds.off..ds.off + k].copy_from_slice(&src);
+                note_w(di, ds.off, ds.off + k);
                 j.expect(&got, &Obs::Unit);
                 tally!(got);
             }
@@ -704,6 +877,7 @@ impl Mem {
                 let exp = if !fits { Obs::Oob } else if !aligned { Obs::Misaligned } else if store { Obs::Unit } else { Obs::Bytes(conts[ci].model[voff + addr..voff + addr + sz].to_vec()) };
                 if ok && store {
                     conts[ci].model[voff + addr..voff + addr + sz].copy_from_slice(&bytes);
+                    note_w(ci, voff + addr, voff + addr + sz);
                 }
                 j.expect(&got, &exp);
                 tally!(got);
@@ -728,6 +902,7 @@ impl Mem {
                 let exp = if !fits { Obs::Oob } else if !aligned { Obs::Misaligned } else { Obs::Bytes(val.to_ne_bytes().to_vec()) };
                 if ok {
                     conts[ci].model[voff + addr..voff + addr + 4].copy_from_slice(&val.to_ne_bytes());
+                    note_w(ci, voff + addr, voff + addr + 4);
                 }
                 j.expect(&got, &exp);
                 tally!(got);
@@ -752,12 +927,14 @@ impl Mem {
                     let got = with_allowed(rid, &[(abs(addr), abs(addr) + k)], || flat(catch(|| view.read_exact_volatile_from(addr, &mut s, count)), obs_unit));
                     let exp = if !fits { Obs::Oob } else if count > srclen { Obs::Io(ErrorKind::UnexpectedEof) } else { Obs::Unit };
                     conts[ci].model[voff + addr..voff + addr + k].copy_from_slice(&src[..k]);
+                    note_w(ci, voff + addr, voff + addr + k);
                     j.expect(&got, &exp);
                     tally!(got);
                 } else {
                     let k = count.min(room).min(srclen);
                     let got = with_allowed(rid, &[(abs(addr), abs(addr) + k)], || flat(catch(|| view.read_volatile_from(addr, &mut s, count)), obs_count));
                     conts[ci].model[voff + addr..voff + addr + k].copy_from_slice(&src[..k]);
+                    note_w(ci, voff + addr, voff + addr + k);
                     j.expect(&got, &Obs::Count(k));
                     if s.len() != srclen - k {
                         cx().violate("C04", "C04/data", "stream position".into(), format!("step {} {}: source advanced by {} instead of {}", step, j.desc, srclen - s.len(), k));
